@@ -4,13 +4,13 @@ import sys, os, json, tempfile, shutil, importlib.util, dataclasses, copy
 import _checker_common as K
 
 RULE = ('generated dataclass modules: 1-5 fields from an annotation pool (classes, Optional, Union, List / list, Dict, Tuple, Set, Literal, '
-        'user classes, forward references naming a class of the module, SELF-REFERENTIAL fields (List / Optional / Dict / Tuple / Union of the dataclass itself or of its decorated subclass, as forward reference or plain string, holding real instances of the generated class), Any), defaults and default factories, decorated base + decorated '
+        'user classes, forward references naming a class of the module, SELF-REFERENTIAL fields (List / Optional / Dict / Tuple / Union of the dataclass itself or of its decorated subclass, as forward reference or plain string, holding real instances of the generated class), classes defined INSIDE A FUNCTION with forward references to function-local classes (resolved in the frame of the caller), Any), defaults and default factories, decorated base + decorated '
         'subclass (fields declared in the parent), slots / order / kw_only, type_safe on and off, a user __post_init__ that journals or raises; '
         'operations: constructor, copy_with (replacing each field in turn), deep_copy_with with and WITHOUT keywords after an in-place '
         'mutation of a mutable field, validate_types() on valid instances and after object.__setattr__ / in-place mutation; values conforming '
         'or with exactly one non-conforming field at each position. non-trivial = some field value does not conform or the class has >= 2 fields')
 EXHAUSTIVE = {'quick': False, 'thorough': False}
-ASSUMPTIONS = ['classes are defined at module level (the frame-depth arithmetic of get_context for classes defined inside functions is not modelled)',
+ASSUMPTIONS = ['function-local classes: the operation is executed by the function that defines the classes (a caller elsewhere cannot see the names at all: region fwdUnresolved)',
                'dataclasses machinery (defaults, replace, fields(), slots, inheritance of fields) is environment: the harness supplies the field list reported by dataclasses.fields() and the values the fields hold when __post_init__ runs']
 TRUSTED = ['dataclasses.__init__ calls __post_init__; dataclasses.replace re-enters __init__; copy.deepcopy preserves structure (C11: deepcopy_veq)']
 
@@ -23,12 +23,43 @@ POOL = [('int', True), ('str', True), ('float', True), ('bool', True), ('List[in
 SELF_POOL_A = ["List['SelfA']", "Optional['SelfA']", "Dict[str, 'SelfA']", "Tuple['SelfA', ...]", "'SelfA'", "list['SelfA']",
                "Union[int, 'SelfA']", "Optional[List['SelfA']]"]
 SELF_POOL_B = SELF_POOL_A + ["List['SelfB']", "Optional['SelfB']", "'SelfB'", "Dict[str, 'SelfB']"]
+# classes defined inside a function: the dataclass, its subclass and a helper class Loc are locals of `scope`, which also executes the
+# operation - forward references to them can only be resolved in the frame of the caller (get_context depth arithmetic)
+LOCAL_POOL = ["List['Loc']", "Optional['Loc']", "'Loc'", "Dict[str, 'Loc']", "Tuple['Loc', int]", "Union[int, 'Loc']"]
+SCOPE_TAIL = '''
+    if op is None:
+        return locals()
+    cls = CLS
+    mk = build({k: v for k, v in locals().items() if k in ('Loc', 'SelfA', 'SelfB')})
+    recipe = op['recipe']
+    if recipe[0] == 'ctor':
+        obj = cls(**{n: mk(t) for n, t in op['vals'].items()})
+        return 'INSTANCE' if type(obj) is cls else 'OTHER'
+    try:
+        inst = cls(**{n: mk(t) for n, t in op['base'].items()})
+    except BaseException as e:
+        raise SetupFailed(e)
+    del J[:]
+    if recipe[0] == 'copy':
+        obj = getattr(inst, op['path'])(**{recipe[1]: mk(op['vals'][recipe[1]])})
+        return 'INSTANCE' if type(obj) is cls else 'OTHER'
+    if recipe[0] == 'mutate':
+        getattr(inst, recipe[1]).append(U())
+    if recipe[0] == 'setattr':
+        object.__setattr__(inst, recipe[1], mk(op['vals'][recipe[1]]))
+    if op['path'] == 'validate':
+        inst.validate_types()
+        return 'INSTANCE'
+    obj = getattr(inst, op['path'])()
+    return 'INSTANCE' if type(obj) is cls else 'OTHER'
+'''
 PRELUDE = '''from typing import *
 import dataclasses
 from pedantic import frozen_dataclass, frozen_type_safe_dataclass
 from _checker_common import P, C1, C2, G, U, MI
 J = []
 class PostErr(Exception): pass
+class SetupFailed(Exception): pass
 '''
 
 
@@ -40,9 +71,11 @@ def gen_class(r, idx):
     order = r.random() < 0.2
     post = r.choice(['absent'] * 4 + ['runs', 'runs', 'raises'])
     shortcut = ts and not slots and not order and r.random() < 0.3
-    selfref = r.random() < 0.3
+    local = r.random() < 0.22
+    selfref = local or r.random() < 0.3
     an, bn = ('SelfA', 'SelfB') if selfref else (f'A{idx}', f'B{idx}')
     def ann(pool):
+        if local and r.random() < 0.4: return r.choice(LOCAL_POOL)
         return r.choice(pool) if selfref and r.random() < 0.6 else r.choice(POOL)[0]
     fields = [(f'f{i}', ann(SELF_POOL_A)) for i in range(nf)]
     deco = '@frozen_type_safe_dataclass' if shortcut else f'@frozen_dataclass(type_safe={ts}, slots={slots}, order={order})'
@@ -54,6 +87,7 @@ def gen_class(r, idx):
     if post == 'raises':
         lines += ['    def __post_init__(self):', f'        J.append(("post", {idx}))', '        raise PostErr()']
     cls = an
+    levels = 1
     if sub == 'deco_sub':
         ns = r.randint(1, 2)
         own = [(f'g{i}', ann(SELF_POOL_B)) for i in range(ns)]
@@ -68,7 +102,12 @@ def gen_class(r, idx):
             lines += ['    def __post_init__(self):', f'        J.append(("post", {idx}))', '        raise PostErr()']
             post = 'raises'
         cls = bn
-    return {'src': '\n'.join(lines) + '\n', 'cls': cls, 'ts': ts, 'post': post, 'idx': idx, 'selfref': selfref}
+        if own_post == 'absent' and ts:
+            levels = 2          # the subclass inherits the wrapped __post_init__ of its base: two validating wrappers run
+    if local:
+        lines = ['def scope(op, build):', "    C1 = str     # decoy: the module's C1 must win", '    class Loc: pass'] + ['    ' + l for l in lines] + \
+                SCOPE_TAIL.replace('CLS', cls).splitlines()
+    return {'src': '\n'.join(lines) + '\n', 'cls': cls, 'ts': ts, 'post': post, 'idx': idx, 'selfref': selfref, 'local': local, 'levels': levels}
 
 
 def load(src, tag):
@@ -148,8 +187,10 @@ def gen_ops(r, fterms):
 def execute(mod, clsname, op, post):
     """run one operation on the real class; returns {'out', 'journal'}"""
     from pedantic.exceptions import PedanticTypeCheckException, PedanticException
-    cls = getattr(mod, clsname)
     del mod.J[:]
+    if hasattr(mod, 'scope'):
+        return execute_local(mod, op)
+    cls = getattr(mod, clsname)
     # decoys: the frame that calls the constructor holds unrelated objects under the names the field annotations refer to
     # (forward references must resolve in the module that defines the dataclass, not in whoever happens to call it)
     P = C1 = C2 = G = U = MI = SelfA = SelfB = str                                             # noqa: F841
@@ -203,11 +244,53 @@ def execute(mod, clsname, op, post):
         K.INST_FACTORY.clear()
 
 
+def _leaf(c):
+    if not dataclasses.is_dataclass(c):
+        return c()
+    o = object.__new__(c)
+    for f in dataclasses.fields(c):
+        object.__setattr__(o, f.name, None)
+    return o
+
+
+def execute_local(mod, op):
+    """the operation is executed by the generated function `scope`, whose frame holds the classes"""
+    from pedantic.exceptions import PedanticTypeCheckException, PedanticException
+
+    def build(real):
+        K.INST_FACTORY.clear()
+        for name, c in real.items():
+            K.INST_FACTORY[getattr(K, name)] = (lambda c: lambda: _leaf(c))(c)
+        return K.build_val
+    try:
+        return {'out': mod.scope(op, build), 'journal': len(mod.J)}
+    except BaseException as e:
+        if type(e).__name__ == 'SetupFailed':
+            e = e.args[0]; pre = 'SETUP:'; j = 0
+        else:
+            pre = ''; j = len(mod.J)
+        if isinstance(e, PedanticTypeCheckException): k = 'PED:TypeCheck'
+        elif isinstance(e, PedanticException): k = 'PED:' + type(e).__name__
+        elif type(e).__name__ == 'PostErr': k = 'POST_EXC'
+        else: k = 'ESC:' + type(e).__name__
+        return {'out': pre + k, 'journal': j}
+    finally:
+        K.INST_FACTORY.clear()
+
+
 def case_env(mod):
     """the class table of the case: the module's globals bind the names of the generated classes"""
     env = K.env_json()
     extra = [[K.nid(ph.__name__), K.IDX[ph]] for ph in (K.SelfA, K.SelfB) if hasattr(mod, ph.__name__)]
     return env if not extra else {**env, 'ctx': env['ctx'] + extra}
+
+
+def local_env(names, clsname):
+    """classes defined inside `scope`: the context has the module's names and the class of the instance; the rest are locals of the caller"""
+    env = K.env_json()
+    ph = getattr(K, clsname)
+    locs = [[K.nid(n), K.IDX[getattr(K, n)]] for n in ('Loc', 'SelfA', 'SelfB') if n in names] + [[K.nid('C1'), K.IDX[str]]]
+    return {**env, 'ctx': env['ctx'] + [[K.nid(clsname), K.IDX[ph]]]}, locs
 
 
 def build_cases(rng, n, tag):
@@ -219,11 +302,23 @@ def build_cases(rng, n, tag):
         except BaseException:
             continue                                # not a valid dataclass definition (e.g. mutable default): not this property
         try:
-            cls = getattr(mod, C['cls'])
+            extra = {}
+            init = ['__init__', '', False, True]
+            wrapper = ['new_post_init', 'new_post_init', False, True]
+            chains = [[wrapper, init], [init]] if C.get('levels') == 2 else [[init]]
+            if C.get('local'):
+                names = mod.scope(None, None)
+                cls = names[C['cls']]
+                env, locs = local_env(names, C['cls'])
+                extra = {'locals': locs, 'caller': 'scope', 'chains': chains}
+                present = [n for n in ('Loc', 'SelfA', 'SelfB') if n in names]
+            else:
+                cls = getattr(mod, C['cls'])
+                env = case_env(mod)
+                present = [ph.__name__ for ph in (K.SelfA, K.SelfB) if hasattr(mod, ph.__name__)]
             fterms = field_terms(cls)
-            env = case_env(mod)
             K.EXTRA_CTX.clear()
-            K.EXTRA_CTX.update({ph.__name__: ph for ph in (K.SelfA, K.SelfB) if hasattr(mod, ph.__name__)})
+            K.EXTRA_CTX.update({n: getattr(K, n) for n in present})
             try:
                 ops = gen_ops(rng, fterms)
             finally:
@@ -233,7 +328,7 @@ def build_cases(rng, n, tag):
                 post = C['post'] if C['post'] != 'raises' else ['raises', 0]
                 cases.append({'m': 'typesafe',
                               'c': {'env': env, 'fields': [[K.nid(nm), t, op['vals'][nm]] for nm, t in fterms], 'typeSafe': C['ts'],
-                                    'post': post, 'path': op['path']},
+                                    'post': post, 'path': op['path'], **extra},
                               'x': {'src': C['src'], 'cls': C['cls'], 'op': op, 'postk': C['post'], '_impl': impl}})
         finally:
             unload(mod, d)
